@@ -221,6 +221,19 @@ def rule_matrix_builders(ctx: Ctx):
             continue
         cats_e, mat_e = args[0], args[1]
         cats_def = resolve_local(init.node, cats_e)
+        # the caller's own set kept as it is (on some path): the table is indexed by ranks in a set somebody else may still add to
+        lab_params = set(init.params[1:])
+        alias = None
+        defs_ = assigned_value(init.node, cats_e.id) if isinstance(cats_e, ast.Name) and cats_e.id not in lab_params else [cats_e]
+        for d_ in defs_:
+            for br in ([d_.body, d_.orelse] if isinstance(d_, ast.IfExp) else [d_]):
+                if isinstance(br, ast.Name) and br.id in lab_params:
+                    alias = br
+        if alias is not None:
+            ctx.bad("R-C04-5", init, call, f"{init.qualname} keeps the caller's own label set `{alias.id}` (not a copy): the matrix is built for the ranks the labels have now; when the "
+                    f"caller's set grows later (`continuum.categories` is the continuum's live set, `add` inserts into it), a label's rank - the cell d() and the arrays read - "
+                    f"shifts while the matrix stays", key="categories-aliased")
+            continue
         if not (isinstance(cats_def, ast.Call) and dotted(cats_def.func) == "SortedSet" and len(cats_def.args) == 1):
             ctx.undecided("R-C04-5", init, call, "categories handed to the precomputed dissimilarity are not SortedSet(labels)")
             continue
